@@ -73,6 +73,12 @@ def gen_image(rng, idx, tier, seed):
         from .. import refbpch
         spec = refbpch.gen_spec(rng, small=True)
         spec['fmt'] = 'bpch'
+        # at least one complete step before the cut region, and data
+        # blocks longer than the 136-byte file header (header-sized
+        # off-by-one errors in step counting need such cuts)
+        spec['nt'] = 1 + (idx // len(FMTS)) % 3
+        spec['ni'], spec['nj'] = 6, 4
+        spec['tracers'] = spec['tracers'][:3]
         return spec
     spec = refcamx.gen_spec(rng, fmt, maxt=3, small=True)
     spec['hostile'] = False
@@ -120,7 +126,7 @@ def classify(cut, edges, step_edges, hdr_end):
     return 'mid-record'
 
 
-def judge_prefix(fmt, path, spec, full, prefix=None):
+def judge_prefix(fmt, path, spec, full, prefix=None, complete=None):
     """-> (outcome, problem or None)"""
     nt, dims, fv = full
     # Several CAMx formats carry no layer / variable count: a prefix that
@@ -179,9 +185,11 @@ def judge_prefix(fmt, path, spec, full, prefix=None):
                 return 'returned', 'variable %s of the truncated file is ' \
                     'not a complete variable of the full file' % k
         return 'returned', None
-    if gnt is None or gnt > nt:
-        return 'returned', 'truncated file exposes %s time steps, the full ' \
-            'file has %d' % (gnt, nt)
+    if gnt is None or gnt > nt or (complete is not None and
+                                   gnt > complete):
+        return 'returned', 'truncated file exposes %s time steps; the ' \
+            'prefix holds %s complete ones (full file %d)' % (gnt, complete,
+                                                              nt)
     for k, a in got.items():
         if k not in fv:
             return 'returned', 'variable %s does not exist in the full ' \
@@ -245,8 +253,14 @@ def run(spec, res):
                 continue
             with open(ppath, 'wb') as fh:
                 fh.write(img[:cut])
-            outcome, problem = judge_prefix(fmt, ppath, spec, full,
-                                            prefix=img[:cut])
+            # a wind step ends with a content-free dummy record: its data
+            # are complete once the last V record is
+            data_edges = step_edges if fmt != 'wind' else set(
+                edges[hdr - 1 + per * (i + 1) - 1] for i in range(nt))
+            outcome, problem = judge_prefix(
+                fmt, ppath, spec, full, prefix=img[:cut],
+                complete=(sum(1 for e_ in data_edges if e_ <= cut)
+                          if fmt != 'landuse' else None))
             res.hook('prefix.open')
             res.hook('oracle.compare')
             cls = classify(cut, edges, step_edges, hdr_end)
